@@ -177,7 +177,7 @@ CHECKS = {
         'assumptions': [
             'a released region that differs between the two secrets and is byte-identical to public output of the same run is excused',
             'pairs whose allocation traces or return codes differ are not compared (counted as incomparable) and fall back to the raw-secret window scan',
-            'memWipe counter normalised through 1-octet public memWipe calls; the real memWipe stays under test',
+            'memWipe counter restarted through the guarded hook memVerifReset (H-reset); the real memWipe stays under test',
         ],
         'mandatory_probes': {'any': ['compared_pairs', 'probe.alloc_fault_after_secret_loaded', 'fault.error_variant', 'probe.protocol_sessions_scanned', 'probe.protocol_error_exit_scanned']},
     },
@@ -266,7 +266,7 @@ MANIFEST_TEXT = {
                  'in lock-acquisition order with the recorded entropy; once/atomic/refcount/lifetime/deadlock oracles; entropy, allocation, mutex-init '
                  'and atexit faults attached to library-level events. Evidence, not proof: schedules are sampled.'),
         'design_ref': 'DESIGN.md §3 C18',
-        'note': 'Trusted: ThreadSanitizer 14 fiber support; the cooperative scheduler (sim/kernel/fiber.c) adding no synchronisation of its own (uninstrumented, no_sync switches); hooks H-mt, H-rng-es, H-reset.',
+        'note': 'Trusted: ThreadSanitizer 14 fiber support; the cooperative scheduler (sim/kernel/fiber.c) adding no synchronisation of its own (uninstrumented, no_sync switches); hooks H-mt, H-rng-es, H-reset. The race on memWipe\'s own pattern counter (function-static, unsynchronised by design, no generator state) is counted, not reported (DESIGN 12.4).',
         'technique': 'deterministic simulation: seeded scheduler over fibers + TSan happens-before + sequential-replay linearizability',
     },
     'C07': {
